@@ -37,7 +37,11 @@ def archive(wt, name, prop):
     for f in os.listdir(os.path.join(wt, 'SEED')):
         if f.endswith('.log'):
             continue
-        shutil.copy(os.path.join(wt, 'SEED', f), os.path.join(d, f))
+        sp = os.path.join(wt, 'SEED', f)
+        if os.path.isdir(sp):
+            shutil.copytree(sp, os.path.join(d, f), dirs_exist_ok=True)
+        else:
+            shutil.copy(sp, os.path.join(d, f))
     m = load_meta(name)
     m.update({'name': name, 'property': prop, 'origin': 'sub-agent given only the property text and a scratch worktree',
               'base_commit': sh('git rev-parse HEAD', cwd=wt)[1].strip()})
